@@ -30,7 +30,7 @@ def genCreateDense (cinv : Arr → Option Nat → Except PyErr Mat) (X : Mat) (g
   if (!(List.contains [ModeS.concatenation, ModeS.subtraction] mode)) then
     .error .valueError
   else
-    let precision0 := (zerosRC nfeatures nfeatures)
+    let precision0 := (asDtype dtype (zerosRC nfeatures nfeatures))
     let edges0 := (List.range (GraphS.nEdges graph))
     let r0 := MenpoModel.Py.forLoop (none, precision0) (edges0) (fun acc0 it0 =>
         if (acc0.1).isSome then acc0 else
@@ -95,7 +95,7 @@ def genCreateSparse (cinv : Arr → Option Nat → Except PyErr Mat) (argsort : 
   if (!(List.contains [ModeS.concatenation, ModeS.subtraction] mode)) then
     .error .valueError
   else
-    let allblocks0 := (zerosN ((GraphS.nEdges graph) * (4)) nfpv nfpv)
+    let allblocks0 := (asDtype dtype (zerosN ((GraphS.nEdges graph) * (4)) nfpv nfpv))
     let columns0 := (List.replicate ((GraphS.nEdges graph) * (4)) (0 : Nat))
     let rows0 := (List.replicate ((GraphS.nEdges graph) * (4)) (0 : Nat))
     let edges0 := (List.range (GraphS.nEdges graph))
@@ -224,10 +224,10 @@ def genCreateSparse (cinv : Arr → Option Nat → Except PyErr Mat) (argsort : 
             let indptr1 := (pySet indptr0 (i0 + (1)) ((pyIdx inds0 (-(1))) + (1)))
             indptr1)
       let indptr1 := r1
-      .ok ((mkBsr allblocks0 columns0 indptr1))
+      .ok ((withShape nfeatures nfeatures (asDtype dtype (mkBsr allblocks0 columns0 indptr1))))
 
 def genCreateDenseDiag (cinv : Arr → Option Nat → Except PyErr Mat) (X : Mat) (graph : GraphS) (nfeatures nfpv : Nat) (dtype : DType) (ncomponents : Option Nat) (bias : Bool) : Except PyErr Mat :=
-  let precision0 := (zerosRC nfeatures nfeatures)
+  let precision0 := (asDtype dtype (zerosRC nfeatures nfeatures))
   let vertices0 := (List.range (GraphS.nVertices graph))
   let r0 := MenpoModel.Py.forLoop (none, precision0) (vertices0) (fun acc0 it0 =>
       if (acc0.1).isSome then acc0 else
@@ -249,7 +249,7 @@ def genCreateDenseDiag (cinv : Arr → Option Nat → Except PyErr Mat) (X : Mat
     .ok (precision1)
 
 def genCreateSparseDiag (cinv : Arr → Option Nat → Except PyErr Mat) (argsort : List Nat → List Nat) (X : Mat) (graph : GraphS) (nfeatures nfpv : Nat) (dtype : DType) (ncomponents : Option Nat) (bias : Bool) : Except PyErr BSR :=
-  let allblocks0 := (zerosN (GraphS.nVertices graph) nfpv nfpv)
+  let allblocks0 := (asDtype dtype (zerosN (GraphS.nVertices graph) nfpv nfpv))
   let columns0 := (List.replicate (GraphS.nVertices graph) (0 : Nat))
   let rows0 := (List.replicate (GraphS.nVertices graph) (0 : Nat))
   let vertices0 := (List.range (GraphS.nVertices graph))
@@ -295,16 +295,16 @@ def genCreateSparseDiag (cinv : Arr → Option Nat → Except PyErr Mat) (argsor
           let indptr1 := (pySet indptr0 (i0 + (1)) ((pyIdx inds0 (-(1))) + (1)))
           indptr1)
     let indptr1 := r1
-    .ok ((mkBsr allblocks0 columns0 indptr1))
+    .ok ((withShape nfeatures nfeatures (asDtype dtype (mkBsr allblocks0 columns0 indptr1))))
 
 def genCreateDenseRC (cinv : Arr → Option Nat → Except PyErr Mat) (X : Mat) (graph : GraphS) (nfeatures nfpv : Nat) (mode : ModeS) (dtype : DType) (ncomponents : Option Nat) (bias : Bool) : Except PyErr (Mat × List Arr) :=
   if (!(List.contains [ModeS.concatenation, ModeS.subtraction] mode)) then
     .error .valueError
   else
-    let precision0 := (zerosRC nfeatures nfeatures)
+    let precision0 := (asDtype dtype (zerosRC nfeatures nfeatures))
     if ((mode == ModeS.concatenation)) then
       let covshape0 := ((GraphS.nEdges graph), ((2) * nfpv), ((2) * nfpv))
-      let allcovariances0 := (zeros3 covshape0)
+      let allcovariances0 := (asDtype dtype (zeros3 covshape0))
       let edges0 := (List.range (GraphS.nEdges graph))
       let r0 := MenpoModel.Py.forLoop (none, precision0, allcovariances0) (edges0) (fun acc0 it0 =>
           if (acc0.1).isSome then acc0 else
@@ -370,7 +370,7 @@ def genCreateDenseRC (cinv : Arr → Option Nat → Except PyErr Mat) (X : Mat) 
         .ok ((precision1, allcovariances1))
     else
       let covshape0 := ((GraphS.nEdges graph), nfpv, nfpv)
-      let allcovariances0 := (zeros3 covshape0)
+      let allcovariances0 := (asDtype dtype (zeros3 covshape0))
       let edges0 := (List.range (GraphS.nEdges graph))
       let r0 := MenpoModel.Py.forLoop (none, precision0, allcovariances0) (edges0) (fun acc0 it0 =>
           if (acc0.1).isSome then acc0 else
@@ -439,10 +439,10 @@ def genCreateSparseRC (cinv : Arr → Option Nat → Except PyErr Mat) (argsort 
   if (!(List.contains [ModeS.concatenation, ModeS.subtraction] mode)) then
     .error .valueError
   else
-    let allblocks0 := (zerosN ((GraphS.nEdges graph) * (4)) nfpv nfpv)
+    let allblocks0 := (asDtype dtype (zerosN ((GraphS.nEdges graph) * (4)) nfpv nfpv))
     if ((mode == ModeS.concatenation)) then
       let covshape0 := ((GraphS.nEdges graph), ((2) * nfpv), ((2) * nfpv))
-      let allcovariances0 := (zeros3 covshape0)
+      let allcovariances0 := (asDtype dtype (zeros3 covshape0))
       let columns0 := (List.replicate ((GraphS.nEdges graph) * (4)) (0 : Nat))
       let rows0 := (List.replicate ((GraphS.nEdges graph) * (4)) (0 : Nat))
       let edges0 := (List.range (GraphS.nEdges graph))
@@ -575,10 +575,10 @@ def genCreateSparseRC (cinv : Arr → Option Nat → Except PyErr Mat) (argsort 
               let indptr1 := (pySet indptr0 (i0 + (1)) ((pyIdx inds0 (-(1))) + (1)))
               indptr1)
         let indptr1 := r1
-        .ok (((mkBsr allblocks0 columns0 indptr1), allcovariances1))
+        .ok (((withShape nfeatures nfeatures (asDtype dtype (mkBsr allblocks0 columns0 indptr1))), allcovariances1))
     else
       let covshape0 := ((GraphS.nEdges graph), nfpv, nfpv)
-      let allcovariances0 := (zeros3 covshape0)
+      let allcovariances0 := (asDtype dtype (zeros3 covshape0))
       let columns0 := (List.replicate ((GraphS.nEdges graph) * (4)) (0 : Nat))
       let rows0 := (List.replicate ((GraphS.nEdges graph) * (4)) (0 : Nat))
       let edges0 := (List.range (GraphS.nEdges graph))
@@ -711,11 +711,11 @@ def genCreateSparseRC (cinv : Arr → Option Nat → Except PyErr Mat) (argsort 
               let indptr1 := (pySet indptr0 (i0 + (1)) ((pyIdx inds0 (-(1))) + (1)))
               indptr1)
         let indptr1 := r1
-        .ok (((mkBsr allblocks0 columns0 indptr1), allcovariances1))
+        .ok (((withShape nfeatures nfeatures (asDtype dtype (mkBsr allblocks0 columns0 indptr1))), allcovariances1))
 
 def genCreateDenseDiagRC (cinv : Arr → Option Nat → Except PyErr Mat) (X : Mat) (graph : GraphS) (nfeatures nfpv : Nat) (dtype : DType) (ncomponents : Option Nat) (bias : Bool) : Except PyErr (Mat × List Arr) :=
-  let precision0 := (zerosRC nfeatures nfeatures)
-  let allcovariances0 := (zerosN (GraphS.nVertices graph) nfpv nfpv)
+  let precision0 := (asDtype dtype (zerosRC nfeatures nfeatures))
+  let allcovariances0 := (asDtype dtype (zerosN (GraphS.nVertices graph) nfpv nfpv))
   let vertices0 := (List.range (GraphS.nVertices graph))
   let r0 := MenpoModel.Py.forLoop (none, precision0, allcovariances0) (vertices0) (fun acc0 it0 =>
       if (acc0.1).isSome then acc0 else
@@ -740,8 +740,8 @@ def genCreateDenseDiagRC (cinv : Arr → Option Nat → Except PyErr Mat) (X : M
     .ok ((precision1, allcovariances1))
 
 def genCreateSparseDiagRC (cinv : Arr → Option Nat → Except PyErr Mat) (argsort : List Nat → List Nat) (X : Mat) (graph : GraphS) (nfeatures nfpv : Nat) (dtype : DType) (ncomponents : Option Nat) (bias : Bool) : Except PyErr (BSR × List Arr) :=
-  let allblocks0 := (zerosN (GraphS.nVertices graph) nfpv nfpv)
-  let allcovariances0 := (zerosN (GraphS.nVertices graph) nfpv nfpv)
+  let allblocks0 := (asDtype dtype (zerosN (GraphS.nVertices graph) nfpv nfpv))
+  let allcovariances0 := (asDtype dtype (zerosN (GraphS.nVertices graph) nfpv nfpv))
   let columns0 := (List.replicate (GraphS.nVertices graph) (0 : Nat))
   let rows0 := (List.replicate (GraphS.nVertices graph) (0 : Nat))
   let vertices0 := (List.range (GraphS.nVertices graph))
@@ -790,7 +790,7 @@ def genCreateSparseDiagRC (cinv : Arr → Option Nat → Except PyErr Mat) (args
           let indptr1 := (pySet indptr0 (i0 + (1)) ((pyIdx inds0 (-(1))) + (1)))
           indptr1)
     let indptr1 := r1
-    .ok (((mkBsr allblocks0 columns0 indptr1), allcovariances1))
+    .ok (((withShape nfeatures nfeatures (asDtype dtype (mkBsr allblocks0 columns0 indptr1))), allcovariances1))
 
 def callCtor (cinv : Arr → Option Nat → Except PyErr Mat) (argsort : List Nat → List Nat) (c : CtorS) (rc : Bool) (X : Mat) (graph : GraphS) (nfeatures nfpv : Nat) (dtype : DType) (ncomponents : Option Nat) (bias : Bool) : Except PyErr CtorOut :=
   match c, rc with
